@@ -250,7 +250,7 @@ macro_rules! layout_type {
     }};
 }
 
-fn mem_available_gib() -> u64 {
+pub fn mem_available_gib() -> u64 {
     std::fs::read_to_string("/proc/meminfo")
         .ok()
         .and_then(|m| {
